@@ -327,3 +327,42 @@ Definition bcast_run (outs : list outcome) (order : list nat) : bshared :=
 
 Definition bcast_lts (outs : list outcome) (sched : list nat) : option (fan (A := bshared)) :=
   fan_run (bcast_eff outs) (fan_init (length outs) (bcast_init outs)) sched.
+
+(* ------------------------------------------------------------------ *)
+(* getIndex under concurrent callers (several calls failing at the same time share the
+   closure's index).  Atomic steps of one getIndex call, n > 1:
+     i := atomic.AddInt64(index, 1)        GIdle  -> i < n ? GIdle (returned i) : GStore
+     atomic.StoreInt64(index, 0); return 0 GStore -> GIdle (returned 0)
+   A thread that is idle may start the next getIndex call, so a schedule (list of thread
+   ids) describes any number of calls per thread in any interleaving. *)
+Inductive gpc := GIdle (last : option Z) | GStore.
+
+Record gstate := { g_index : Z; g_pcs : list gpc }.
+
+Definition gi_init (k : nat) : gstate := {| g_index := 0; g_pcs := repeat (GIdle None) k |}.
+
+Definition gi_step (n : Z) (s : gstate) (t : nat) : option gstate :=
+  match nth_error (g_pcs s) t with
+  | Some (GIdle _) =>
+      if n >? 1 then
+        let i := g_index s + 1 in
+        if i <? n then Some {| g_index := i; g_pcs := upd_nth t (GIdle (Some i)) (g_pcs s) |}
+        else Some {| g_index := i; g_pcs := upd_nth t GStore (g_pcs s) |}
+      else Some {| g_index := g_index s; g_pcs := upd_nth t (GIdle (Some 0)) (g_pcs s) |}
+  | Some GStore => Some {| g_index := 0; g_pcs := upd_nth t (GIdle (Some 0)) (g_pcs s) |}
+  | None => None
+  end.
+
+Fixpoint gi_run (n : Z) (s : gstate) (sched : list nat) : option gstate :=
+  match sched with
+  | [] => Some s
+  | t :: r => match gi_step n s t with None => None | Some s' => gi_run n s' r end
+  end.
+
+(* threads between the AddInt64 that reached n and their StoreInt64 *)
+Fixpoint pending (l : list gpc) : nat :=
+  match l with
+  | [] => O
+  | GStore :: r => S (pending r)
+  | GIdle _ :: r => pending r
+  end.
